@@ -176,6 +176,22 @@ func main() {
 			x.flush()
 		})
 
+		// ---- legal arguments near math.MaxInt (zero-size element types make astronomic lengths real)
+		r.Cases("astronomic", 4, min(4, workers), func(c *vkit.Case) {
+			x := newCx(c, true)
+			switch c.Index {
+			case 0:
+				astroZeroSize[struct{}](x, "[]struct{}")
+			case 1:
+				astroZeroSize[[0]int](x, "[][0]int")
+			case 2:
+				astroCounts(x)
+			default:
+				astroSample(x, c.Rand)
+			}
+			x.flush()
+		})
+
 		// ---- random large
 		nLarge := r.Scale(240, 4000)
 		maxN := r.Scale(1500, 20000)
@@ -244,6 +260,8 @@ func main() {
 		for _, tn := range []string{"int8", "int16", "int32", "int64", "int", "named int", "named int8", "named int32", "named int64"} {
 			r.Floor("documented panic seen: Abs of the minimum of "+tn, r.Table("documented panics seen", "xmath.Abs of the minimum of "+tn), 1)
 		}
+		r.Floor("astronomic: Chunk into >= 2 chunks with 2*chunkSize > MaxInt", r.Table("astronomic", "Chunk with >= 2 chunks and 2*chunkSize > MaxInt"), 1)
+		r.Floor("astronomic: RSample tables with n >= 2^40", r.Table("astronomic", "RSample tables with n >= 2^40"), 14)
 		r.Floor("Runs inputs with a leading run of length one", r.Table("runs", "leading run of length one"), 1)
 		r.Floor("Partition inputs with both sides non-empty", r.Table("partition", "both sides non-empty"), 1)
 		r.Floor("RemoveUnordered calls that fill a gap from the end", r.Table("remove-unordered", "gap filled from the end"), 1)
